@@ -1113,7 +1113,7 @@ func (fv *FV) checkInvariants(e *Env, ls *LoopSpec, ord int, phase string, at as
 		return
 	}
 	for _, inv := range ls.Inv {
-		t := fv.specTerm(e, inv, &specCtx{old: fv.entry, bind: fv.entryBind()})
+		t := fv.specTermO(e, inv, &specCtx{old: fv.entry})
 		fv.obligeNamed(e, "inv-"+phase, fmt.Sprintf("loop%d.%s.%s", ord, inv.Label[len(fmt.Sprintf("loop%d.", ord)):], phase), at,
 			fmt.Sprintf("loop %d invariant %q (%s)", ord, inv.Text, phase), t)
 	}
@@ -1124,7 +1124,7 @@ func (fv *FV) assumeInvariants(e *Env, ls *LoopSpec) {
 		return
 	}
 	for _, inv := range ls.Inv {
-		t := fv.specTerm(e, inv, &specCtx{old: fv.entry, bind: fv.entryBind()})
+		t := fv.specTermA(e, inv, &specCtx{old: fv.entry})
 		fv.assume(e, t)
 	}
 }
